@@ -9,7 +9,7 @@ TECH = "bounded symbolic execution of go/ssa + SMT (z3); "
 CHECKS = {
     "C01": ("model_checking",
             "Real generated parser vs. reference PEG interpreter on one symbolic input; per path the solver proves equal success and value for all inputs within the byte bound and alphabet.",
-            "Bounded: catalogue grammars (pair-core + composites, several flag sets) and a seeded random sample of well-formed grammars (24 quick / 300 thorough), input <= 4 (quick) / 5 (thorough) bytes; per-kind lemmas (each real parse<Kind> function from an arbitrary valid pre-state with real children of chosen behaviour) at 1 / 2 bytes; trusted: refpeg oracle, engine semantics (sampled paths cross-validated natively), z3. The induction from the lemmas to all grammars is a paper argument.",
+            "Bounded: catalogue grammars (pair-core + composites, several flag sets) and a seeded random sample of well-formed grammars (24 quick / 300 thorough), input <= 4 (quick) / 5 (thorough) bytes; random class merges and random classes against the reference membership at 2 / 3 bytes; per-kind lemmas (each real parse<Kind> function from an arbitrary valid pre-state with real children of chosen behaviour) at 1 / 2 bytes; trusted: refpeg oracle, engine semantics (sampled paths cross-validated natively), z3. The induction from the lemmas to all grammars is a paper argument.",
             TECH + "whole-parse equivalence against a reference interpreter", "§3 C01"),
     "C02": ("model_checking",
             "Trace of every code-block invocation (text, pos, labels) of the real parser equals the reference trace on every path; value built from them equal.",
@@ -21,11 +21,11 @@ CHECKS = {
             TECH + "trace equivalence against a functional-store reference", "§3 C05"),
     "C06": ("translation_validation",
             "One real parser under default options vs. the same parser under symbolic Memoize/Debug/Statistics: equal value and error presence on every path; ExprCnt <= |exprs|*(n+1) under Memoize.",
-            "Bounded: pure-block catalogue + memo catalogue + random sample (12 / 150), input <= 3 / 4; engine monitor: under Memoize no (expression, offset) is evaluated twice; Debug output formatting stubbed. Known finding F14 (a label is lost on a memo hit) re-confirmed.",
+            "Bounded: pure-block catalogue + memo catalogue + random sample (12 / 150) + left-recursive parsers (results only), input <= 3 / 4; engine monitor: under Memoize no (expression, offset) is evaluated twice; Debug output formatting stubbed. Known finding F14 (a label is lost on a memo hit) re-confirmed.",
             TECH + "relational check over symbolic options", "§3 C06"),
     "C07": ("model_checking",
             "(a) the real left-recursion analysis (PrepareGrammar .. findLeader, ast NullableVisit/IsNullable/InitialNames) against a syntactic reference over a lazily completed family of grammars; (b) generated parsers of accepted grammars under an engine monitor: no rule is re-entered at an offset where it is already active, for all inputs within the bound.",
-            "(a) is lazy case enumeration inside the engine (slot choices are nondeterministic, the solver is idle) - stated as such; family: 2 rules x 2 slots x menu of 32 + fixed nullable rule. (b) input <= 2 / 3 bytes, solver-decided. Findings F3, F12 were fixed in /repo; F15/F15b (cycle through a later alternative behind a nullable, fallible alternative) are known findings.",
+            "(a) is lazy case enumeration inside the engine (slot choices are nondeterministic, the solver is idle) - stated as such; family: 2 rules x 2 slots x menu of 32 + fixed nullable rule. (b) input <= 2 / 3 bytes, solver-decided. Every completed family grammar is also handed to the real BuildParser with default options (rejected iff cyclic). Findings F3, F12 were fixed in /repo; F15/F15b (cycle through a later alternative behind a nullable, fallible alternative) are known findings.",
             TECH + "lazy family enumeration for the analysis; symbolic inputs under a re-entry monitor at run time", "§3 C07"),
     "C08": ("model_checking",
             "Left-recursive catalogue grammars: real parser (Memoize symbolic; also -optimize-parser) vs. the iterative definition in the reference: acceptance, left-nested value and errors equal on every path.",
@@ -45,15 +45,15 @@ CHECKS = {
             TECH + "symbolic fault schedule against a reference", "§3 C11"),
     "C12": ("model_checking",
             "For every non-matching input class the single returned error equals the reference's farthest-failure position and sorted expected set.",
-            "Bounded: failure catalogue (incl. choices of > 20 terminals) + pair-core sample + random sample (24 / 200), input <= 4 / 6; the ambiguous line/col of offset 0 of an input starting with a newline is outside the oracle.",
+            "Bounded: failure catalogue (incl. choices of > 20 terminals) + pair-core sample + random sample (24 / 200) + left-recursive parsers (catalogue + random), input <= 4 / 6; one-step lemmas of the farthest-failure bookkeeping from an arbitrary pre-state (terminals, & and ! over a terminal) at 2 / 3 bytes; the ambiguous line/col of offset 0 of an input starting with a newline is outside the oracle.",
             TECH + "error-message equivalence against a reference", "§3 C12"),
     "C14": ("model_checking",
             "Throw/recover catalogue: acceptance, value and number of block invocations equal the labelled-failure reference (dynamic handler stack) on every path.",
-            "Bounded: throw catalogue + random throw/recover grammars (16 / 200) x {standard, -optimize-parser}, input <= 4 / 6; lemmas Recovery, Throw.",
+            "Bounded: throw catalogue + random throw/recover grammars (16 / 200) x {standard, -optimize-parser}, input <= 4 / 6; lemmas Recovery, RecoveryTwice, Throw.",
             TECH + "equivalence against a reference with an explicit handler stack", "§3 C14"),
     "C15": ("model_checking",
             "Two real parsers per class grammar (with / without -optimize-basic-latin) on unconstrained symbolic bytes: equal value and error on every path.",
-            "Bounded: 101 classes (range ends at U+007F/U+0080 included; chars/ranges/Unicode classes x ^ x i, case boundaries, Kelvin, long s, dotted I), input <= 2 / 3 unconstrained bytes. Finding F2 was fixed in /repo.",
+            "Bounded: 101 classes (range ends at U+007F/U+0080 included; chars/ranges/Unicode classes x ^ x i, case boundaries, Kelvin, long s, dotted I), input <= 2 / 3 unconstrained bytes; also the pair (-optimize-grammar, -optimize-grammar + -optimize-basic-latin) on random class merges and shared-class grammars; 40 / 400 random classes. Finding F2 was fixed in /repo.",
             TECH + "relational, two real parsers", "§3 C15"),
     "C16": ("model_checking",
             "Symbolic budget n and symbolic Memoize: ExprCnt <= n+1, budget error iff exhausted, unexhausted run equals the unbounded run; non-terminating grammars must end by the budget (engine step limit -> native replay under a timeout).",
@@ -72,22 +72,22 @@ CHECKS["C19"] = ("model_checking",
 
 CHECKS["C13"] = ("model_checking",
     "The stages of main() below flag/file handling (generated front end on the grammar text, ast.Optimize, builder.BuildParser) are executed symbolically: (i) the whole grammar text symbolic, (ii) a symbolic byte substituted at positions of catalogue grammars; generation flags symbolic. On every path no Go panic leaves the pipeline and the outcome is a diagnostic or a complete buffer; sampled paths are re-run through the real binary (exit status, no panic trace).",
-    "Bounded: whole text <= 3 (quick) / 4 (thorough) unconstrained bytes; 1-byte mutations at a stride (quick) / every position (thorough) of 5 / 9 grammars. Flag parsing, file I/O, template expansion and goimports are outside. Findings F7a, F7b, F16 were fixed in /repo.",
+    "Bounded: whole text <= 3 (quick) / 4 (thorough) unconstrained bytes; 1-byte mutations at a stride (quick) / every position (thorough) of 5 / 9 grammars. Flag parsing, file I/O, template expansion and goimports are outside. Completeness of the emitted text (every code-block method referred to is defined) is asserted on accepted grammars. Findings F7a, F7b, F16 were fixed in /repo; F18 (time exponential in the depth of a reference chain) is a known finding, re-confirmed by Harness_C13chain.",
     TECH + "symbolic grammar text through the real front end, optimizer and builder", "§3 C13")
 
 CHECKS["C03"] = ("model_checking",
     "The real generated front end (pigeon.go with all its actions) is executed by the engine: (1) round trip - every catalogue AST printed in four layouts parses back to exactly that AST including the position of every node; (2) holes with symbolic bytes in concrete skeletons - layout and comments between tokens, escape bodies in both quotings against a reference decoder, class bodies against a reference for the documented notation, prefix/suffix operators against the binding-strength table, identifiers: the solver proves acceptance and AST equality for all hole contents within the stated validity assumption.",
-    "Bounded: holes of <= 2 (quick) / 3 (thorough) layout bytes, comment bodies of 2 bytes, escapes of length 1,3,5 (9 thorough), class bodies <= 3 / 4 printable ASCII bytes, identifiers <= 2 / 3 ASCII chars; only 'valid text => accepted with the denoted AST' is asserted (nothing about invalid text). Expected ASTs come from the catalogue printer.",
+    "Bounded: holes of <= 2 (quick) / 3 (thorough) layout bytes, comment bodies of 2 bytes, escapes of length 1,3,5 (9 thorough), class bodies <= 3 / 4 printable ASCII bytes, identifiers <= 2 / 3 ASCII chars; code-block holes (<= 3 / 4 symbolic bytes inside strings, raw strings, rune literals, comments, nested braces); escapes also inside classes; only 'valid text => accepted with the denoted AST' is asserted (nothing about invalid text). Expected ASTs come from the catalogue printer.",
     TECH + "symbolic holes in grammar skeletons through the real front end; concrete round trip", "§3 C03")
 
 CHECKS["C20"] = ("translation_validation",
     "(a) the hand-written bootstrap front end and the generated pigeon front end are executed on the same symbolic text (catalogue texts of the bootstrap subset; symbolic layout, escape, class-body and operator holes): on every path where the bootstrap accepts, pigeon accepts and the two ASTs are structurally equal (positions and display-name quoting aside). (b) every generated artifact with a Makefile rule is regenerated with tools built from the current tree and byte-compared; pigeon -nolint grammar/pigeon.peg must equal pigeon.go (fixpoint).",
-    "(b) is a concrete regeneration diff with no symbolic variable - not a solver verdict, labelled as such; it is also the precondition of every other check (the engine executes what generated_static_code.go says). (a) bounded as C03's holes.",
+    "(b) is a concrete regeneration diff with no symbolic variable - not a solver verdict, labelled as such; it is also the precondition of every other check (the engine executes what generated_static_code.go says). (a) bounded as C03's holes, plus free holes: <= 2 / 3 symbolic bytes from the 27 characters significant to either front end at six places (3 / 4 inside comments). A panic of the bootstrap front end counts as 'not in the subset'.",
     TECH + "relational, two real front ends; plus a concrete regeneration diff", "§3 C20")
 
 CHECKS["C18"] = ("other",
     "Ownership discipline decided by the solver for all pairs of inputs within the bound: during Parse nothing reachable from package-level variables is written, pooled maps are empty when Put and untouched afterwards, Pool.Get may return any pooled map, and a Parse returns the same value, errors and block trace whatever Parse ran before it. Together with the linearizability of sync.Pool this implies schedule independence and race freedom by a paper argument.",
-    "Reduced claim: goroutine interleavings are not encoded (DESIGN.md §5); bounded: input <= 1 / 2 bytes per call, pool deviation <= 1; state/composite/throw/LR catalogue, standard and -optimize-parser.",
+    "Reduced claim: goroutine interleavings are not encoded (DESIGN.md §5); bounded: input <= 1 / 2 bytes per call, pool deviation <= 1; three families: three sequential calls under the ownership monitor; the middle call aborted by a symbolic expression budget; Parse(b) after Parse(a) against Parse(b) after symFreshProcess (statistics compared, native confirmation in two processes); sync.Map modelled; state/composite/throw/LR catalogue, standard and -optimize-parser.",
     TECH + "ownership monitor over all paths of three sequential Parse calls with a nondeterministic pool; schedules by argument", "§3 C18")
 CHECKS["C04"] = ("other",
     "Reduced claim: 'compiles and vets' is the Go type checker's verdict over emitted text and has no SMT encoding. Solver-decided kernel: the generated method names are injective in (rule name, expression index) - violated (known finding F4), each solver model is turned into a grammar and confirmed by go build of the real output. Concrete by-product: catalogue grammars x flag subsets (incl. one grammar with every accepted Unicode class) are generated, type-checked, vetted and initialised/run in the engine.",
